@@ -28,12 +28,12 @@ ASSUMPTIONS = ["garbage written into inactive entries is finite", "with transfor
 REQUIRED = {"quick": {"moved_gradient_request_sequences": 500, "calls_checked": 6000, "rows_checked": 35000, "values_checked": 60000, "inactive_entries_seen": 5000, "garbage_pairs_compared": 1500, "evaluator_arrays_snapshotted": 10000, "delivered_arrays_checked": 60000, "memo_hits": 300, "with_filters": 400, "with_transforms": 400, "split_gradient_requests": 400, "row_flags_checked": 1500, "__nontrivial__": 1500},
             "thorough": {"moved_gradient_request_sequences": 10000, "calls_checked": 150000, "rows_checked": 800000, "values_checked": 1500000, "inactive_entries_seen": 120000, "garbage_pairs_compared": 40000, "evaluator_arrays_snapshotted": 250000, "delivered_arrays_checked": 1500000, "memo_hits": 8000, "with_filters": 10000, "with_transforms": 10000, "split_gradient_requests": 10000, "row_flags_checked": 30000, "__nontrivial__": 36000}}
 N = {"quick": 3000, "thorough": 60000}
-PERSONALITIES = ["fresh", "memo", "buffer"]
+PERSONALITIES = ["fresh", "memo", "buffer", "buffer_ro"]   # buffer_ro: hands out read-only views of the buffers it reuses
 
 
 def cases(tier, seed):
     for i in range(N[tier]):
-        yield {"i": i, "personality": PERSONALITIES[i % 3]}
+        yield {"i": i, "personality": PERSONALITIES[i % 4]}
 
 
 class Ev:
@@ -88,7 +88,7 @@ class Ev:
             sel = ~rec["active"][rec["realizations"]]
             vals[sel, :] = self.garbage * 3.0 + np.arange(n)[sel, None]
         rec["true"] = true_vals
-        if self.personality == "buffer":
+        if self.personality in ("buffer", "buffer_ro"):
             bo = self.buffers.setdefault(("o", n), np.empty((n, self.n_obj)))
             bo[...] = vals[:, : self.n_obj]
             bc = None
@@ -100,6 +100,15 @@ class Ev:
             bs = self.buffers.setdefault(("s", n), np.empty(n, dtype="U8"))
             bs[...] = [f"c{k}r{i}" for i in range(n)]
             objs, cons, info = bo, bc, {"tag": bi, "name": bs}
+            if self.personality == "buffer_ro":
+                def ro(a):
+                    if a is None:
+                        return None
+                    v = a.view()
+                    v.flags.writeable = False
+                    return v
+
+                objs, cons, info = ro(bo), ro(bc), {"tag": ro(bi), "name": ro(bs)}
         else:
             objs = vals[:, : self.n_obj].copy()
             cons = vals[:, self.n_obj:].copy() if self.n_con else None
@@ -427,13 +436,13 @@ def run_case(case, obs):
             retobj = rec["returned"]
             ids = ret["ids"]
             obs.count("evaluator_arrays_snapshotted", 2 + len(ret["info"]))
-            if pers != "buffer" or ci == len(ev.calls) - 1 or True:
+            if True:
                 same_obj = id(retobj.objectives) == ids[0] and (retobj.constraints is None) == (ids[1] is None) and \
                     (retobj.constraints is None or id(retobj.constraints) == ids[1]) and retobj.batch_id == ret["batch_id"]
                 if not same_obj:
                     obs.violation("evaluator_result_object_modified", kind=kind, call=ci, personality=pers)
                     return
-            if pers != "buffer":
+            if pers not in ("buffer", "buffer_ro"):
                 if not np.array_equal(retobj.objectives, ret["objectives"], equal_nan=True) or (
                         ret["constraints"] is not None and not np.array_equal(retobj.constraints, ret["constraints"], equal_nan=True)):
                     obs.violation("evaluator_array_modified", kind=kind, call=ci, personality=pers,
